@@ -3,6 +3,7 @@
 //@ include vx/be_bytes.rs
 use vstd::std_specs::iter::IteratorSpec;
 use vstd::std_specs::convert::*;
+//@ import-unit message
 verus! {
 
 /// ASSUMED: String::from_utf8 is total (returns Ok or Err, never panics); on success the string's bytes are the input
@@ -109,24 +110,284 @@ pub trait BytesExt: Iterator<Item = u8> {
 //@ item sim/elvis-core/src/protocols/dns/dns_parsing.rs :: struct DnsMessage
 //@ end
 
+// ---------------------------------------------------------------------------
+// wire format (the specification the encoders and the decoder are both checked against)
+// ---------------------------------------------------------------------------
+pub open spec fn b16(x: u16) -> Seq<u8> { seq![spec_to_be16(x)[0], spec_to_be16(x)[1]] }
+pub open spec fn b32(x: u32) -> Seq<u8> { seq![spec_to_be(x)[0], spec_to_be(x)[1], spec_to_be(x)[2], spec_to_be(x)[3]] }
+pub open spec fn no_sp(b: Seq<u8>) -> bool { forall|i: int| 0 <= i < b.len() ==> b[i] != 0x20u8 }
+/// RFC 1035 4.1.1: ID, flags, QDCOUNT, ANCOUNT, NSCOUNT, ARCOUNT (16 bits each, big endian)
+pub open spec fn dns_hdr_enc(h: DnsHeader) -> Seq<u8> {
+    b16(h.id) + b16(h.properties) + b16(h.qdcount) + b16(h.ancount) + b16(h.nscount) + b16(h.arcount)
+}
+/// name, the delimiter ' ', QTYPE, QCLASS
+pub open spec fn dns_q_enc(q: DnsQuestion) -> Seq<u8> { q.qname@ + seq![0x20u8] + b16(q.qtype) + b16(q.qclass) }
+/// name, the delimiter ' ', TYPE, CLASS, TTL, RDLENGTH, RDATA
+pub open spec fn dns_rr_enc(a: DnsResourceRecord) -> Seq<u8> {
+    a.name@ + seq![0x20u8] + b16(a.rec_type) + b16(a.class) + b32(a.ttl) + b16(a.rdlength) + a.rdata@
+}
+pub open spec fn dns_enc(m: DnsMessage) -> Seq<u8> { dns_hdr_enc(m.header) + dns_q_enc(m.question) + dns_rr_enc(m.answer) }
+/// 'representable': names without the delimiter, RDLENGTH consistent with RDATA
+pub open spec fn dns_representable(m: DnsMessage) -> bool {
+    no_sp(m.question.qname@) && no_sp(m.answer.name@) && m.answer.rdata@.len() == m.answer.rdlength
+}
+/// field-wise equality (Vec fields compared by their contents)
+pub open spec fn dns_same(a: DnsMessage, b: DnsMessage) -> bool {
+    &&& a.header.id == b.header.id && a.header.properties == b.header.properties && a.header.qdcount == b.header.qdcount
+    &&& a.header.ancount == b.header.ancount && a.header.nscount == b.header.nscount && a.header.arcount == b.header.arcount
+    &&& a.question.qname@ == b.question.qname@ && a.question.qtype == b.question.qtype && a.question.qclass == b.question.qclass
+    &&& a.answer.name@ == b.answer.name@ && a.answer.rec_type == b.answer.rec_type && a.answer.class == b.answer.class
+    &&& a.answer.ttl == b.answer.ttl && a.answer.rdlength == b.answer.rdlength && a.answer.rdata@ == b.answer.rdata@
+}
+pub open spec fn is_prefix(p: Seq<u8>, s: Seq<u8>) -> bool { p.len() <= s.len() && s.subrange(0, p.len() as int) == p }
+pub open spec fn pre(x: DnsMessage, all: Seq<u8>) -> bool { dns_representable(x) && is_prefix(dns_enc(x), all) }
+/// `all` read field by field is m (decode direction)
+pub open spec fn wire_ok(m: DnsMessage, all: Seq<u8>) -> bool {
+    let q = m.question.qname@;
+    let n = m.answer.name@;
+    let d = m.answer.rdata@;
+    let o = 12 + q.len() as int;       // delimiter after the question name
+    let p = o + 5 + n.len() as int;    // delimiter after the answer name
+    &&& no_sp(q) && no_sp(n) && d.len() == m.answer.rdlength
+    &&& all.len() >= 28 + q.len() + n.len() + d.len()
+    &&& m.header.id == be16([all[0], all[1]]) && m.header.properties == be16([all[2], all[3]]) && m.header.qdcount == be16([all[4], all[5]])
+    &&& m.header.ancount == be16([all[6], all[7]]) && m.header.nscount == be16([all[8], all[9]]) && m.header.arcount == be16([all[10], all[11]])
+    &&& (forall|i: int| 0 <= i < q.len() ==> all[12 + i] == #[trigger] q[i])
+    &&& all[o] == 0x20u8
+    &&& m.question.qtype == be16([all[o + 1], all[o + 2]]) && m.question.qclass == be16([all[o + 3], all[o + 4]])
+    &&& (forall|i: int| 0 <= i < n.len() ==> all[o + 5 + i] == #[trigger] n[i])
+    &&& all[p] == 0x20u8
+    &&& m.answer.rec_type == be16([all[p + 1], all[p + 2]]) && m.answer.class == be16([all[p + 3], all[p + 4]])
+    &&& m.answer.ttl == be32([all[p + 5], all[p + 6], all[p + 7], all[p + 8]]) && m.answer.rdlength == be16([all[p + 9], all[p + 10]])
+    &&& (forall|i: int| 0 <= i < d.len() ==> all[p + 11 + i] == #[trigger] d[i])
+}
+
+pub proof fn lemma_be16_inverse(b: [u8; 2])
+    ensures spec_to_be16(be16(b)) == b,
+{
+    let (b0, b1) = (b[0], b[1]);
+    assert(((((b0 as u16) << 8) | (b1 as u16)) >> 8) as u8 == b0 && ((((b0 as u16) << 8) | (b1 as u16)) & 0xff) as u8 == b1) by (bit_vector);
+    assert(spec_to_be16(be16(b)) =~= b);
+}
+pub proof fn lemma_be_inverse(b: [u8; 4])
+    ensures spec_to_be(be32(b)) == b,
+{
+    lemma_to_be_roundtrip(be32(b));
+    lemma_be32_inj(spec_to_be(be32(b)), b);
+}
+pub proof fn lemma_b16(x: u16, s: Seq<u8>, k: int)
+    requires 0 <= k, k + 2 <= s.len(), s[k] == b16(x)[0], s[k + 1] == b16(x)[1],
+    ensures be16([s[k], s[k + 1]]) == x,
+{
+    lemma_to_be16_roundtrip(x);
+    assert([s[k], s[k + 1]] =~= spec_to_be16(x));
+}
+pub proof fn lemma_b32(x: u32, s: Seq<u8>, k: int)
+    requires 0 <= k, k + 4 <= s.len(), s[k] == b32(x)[0], s[k + 1] == b32(x)[1], s[k + 2] == b32(x)[2], s[k + 3] == b32(x)[3],
+    ensures be32([s[k], s[k + 1], s[k + 2], s[k + 3]]) == x,
+{
+    lemma_to_be_roundtrip(x);
+    assert([s[k], s[k + 1], s[k + 2], s[k + 3]] =~= spec_to_be(x));
+}
+/// where each field sits in the encoding
+pub proof fn lemma_enc_layout(m: DnsMessage)
+    requires dns_representable(m),
+    ensures wire_ok(m, dns_enc(m)), dns_enc(m).len() == 28 + m.question.qname@.len() + m.answer.name@.len() + m.answer.rdata@.len(),
+{
+    let e = dns_enc(m);
+    let q = m.question.qname@;
+    let n = m.answer.name@;
+    let d = m.answer.rdata@;
+    let o = 12 + q.len() as int;
+    let p = o + 5 + n.len() as int;
+    let h = dns_hdr_enc(m.header);
+    let qe = dns_q_enc(m.question);
+    let re = dns_rr_enc(m.answer);
+    assert(h.len() == 12 && qe.len() == q.len() + 5 && re.len() == n.len() + 11 + d.len());
+    assert forall|i: int| 0 <= i < 12 implies e[i] == h[i] by {}
+    assert forall|i: int| 0 <= i < qe.len() implies e[12 + i] == qe[i] by {}
+    assert forall|i: int| 0 <= i < re.len() implies e[o + 5 + i] == re[i] by {}
+    lemma_b16(m.header.id, e, 0); lemma_b16(m.header.properties, e, 2); lemma_b16(m.header.qdcount, e, 4);
+    lemma_b16(m.header.ancount, e, 6); lemma_b16(m.header.nscount, e, 8); lemma_b16(m.header.arcount, e, 10);
+    assert forall|i: int| 0 <= i < q.len() implies e[12 + i] == q[i] by { assert(qe[i] == q[i]); }
+    assert(e[o] == qe[q.len() as int]);
+    let ql = q.len() as int;
+    assert(e[o + 1] == qe[ql + 1] && e[o + 2] == qe[ql + 2] && e[o + 3] == qe[ql + 3] && e[o + 4] == qe[ql + 4]);
+    lemma_b16(m.question.qtype, e, o + 1); lemma_b16(m.question.qclass, e, o + 3);
+    assert forall|i: int| 0 <= i < n.len() implies e[o + 5 + i] == n[i] by { assert(re[i] == n[i]); }
+    assert(e[p] == re[n.len() as int]);
+    let nl = n.len() as int;
+    assert(e[p + 1] == re[nl + 1] && e[p + 2] == re[nl + 2] && e[p + 3] == re[nl + 3] && e[p + 4] == re[nl + 4] && e[p + 5] == re[nl + 5]
+        && e[p + 6] == re[nl + 6] && e[p + 7] == re[nl + 7] && e[p + 8] == re[nl + 8] && e[p + 9] == re[nl + 9] && e[p + 10] == re[nl + 10]);
+    lemma_b16(m.answer.rec_type, e, p + 1); lemma_b16(m.answer.class, e, p + 3);
+    lemma_b32(m.answer.ttl, e, p + 5); lemma_b16(m.answer.rdlength, e, p + 9);
+    assert forall|i: int| 0 <= i < d.len() implies e[p + 11 + i] == d[i] by { assert(re[nl + 11 + i] == d[i]); }
+}
+/// reading is insensitive to what follows the encoding
+pub proof fn lemma_pre_wire_ok(x: DnsMessage, all: Seq<u8>)
+    requires pre(x, all),
+    ensures wire_ok(x, all),
+{
+    lemma_enc_layout(x);
+    let e = dns_enc(x);
+    assert forall|i: int| 0 <= i < e.len() implies all[i] == e[i] by { assert(all.subrange(0, e.len() as int)[i] == all[i]); }
+}
+/// (C08, second clause) a value read off the wire re-encodes to the bytes that were consumed
+pub proof fn lemma_reencode(m: DnsMessage, all: Seq<u8>)
+    requires wire_ok(m, all),
+    ensures dns_representable(m), is_prefix(dns_enc(m), all),
+{
+    lemma_enc_layout(m);
+    let e = dns_enc(m);
+    let q = m.question.qname@;
+    let n = m.answer.name@;
+    let d = m.answer.rdata@;
+    let o = 12 + q.len() as int;
+    let p = o + 5 + n.len() as int;
+    // both e and all satisfy wire_ok(m, .): they agree byte for byte on the first |e| positions
+    lemma_be16_inverse([all[0], all[1]]); lemma_be16_inverse([e[0], e[1]]);
+    lemma_be16_inverse([all[2], all[3]]); lemma_be16_inverse([e[2], e[3]]);
+    lemma_be16_inverse([all[4], all[5]]); lemma_be16_inverse([e[4], e[5]]);
+    lemma_be16_inverse([all[6], all[7]]); lemma_be16_inverse([e[6], e[7]]);
+    lemma_be16_inverse([all[8], all[9]]); lemma_be16_inverse([e[8], e[9]]);
+    lemma_be16_inverse([all[10], all[11]]); lemma_be16_inverse([e[10], e[11]]);
+    lemma_be16_inverse([all[o + 1], all[o + 2]]); lemma_be16_inverse([e[o + 1], e[o + 2]]);
+    lemma_be16_inverse([all[o + 3], all[o + 4]]); lemma_be16_inverse([e[o + 3], e[o + 4]]);
+    lemma_be16_inverse([all[p + 1], all[p + 2]]); lemma_be16_inverse([e[p + 1], e[p + 2]]);
+    lemma_be16_inverse([all[p + 3], all[p + 4]]); lemma_be16_inverse([e[p + 3], e[p + 4]]);
+    lemma_be_inverse([all[p + 5], all[p + 6], all[p + 7], all[p + 8]]); lemma_be_inverse([e[p + 5], e[p + 6], e[p + 7], e[p + 8]]);
+    lemma_be16_inverse([all[p + 9], all[p + 10]]); lemma_be16_inverse([e[p + 9], e[p + 10]]);
+    assert forall|i: int| 0 <= i < e.len() implies all[i] == e[i] by {
+        if i < 12 {
+        } else if i < o {
+            assert(all[12 + (i - 12)] == q[i - 12] && e[12 + (i - 12)] == q[i - 12]);
+        } else if i < o + 5 {
+        } else if i < p {
+            assert(all[o + 5 + (i - o - 5)] == n[i - o - 5] && e[o + 5 + (i - o - 5)] == n[i - o - 5]);
+        } else if i < p + 11 {
+        } else {
+            assert(all[p + 11 + (i - p - 11)] == d[i - p - 11] && e[p + 11 + (i - p - 11)] == d[i - p - 11]);
+        }
+    }
+    assert(all.subrange(0, e.len() as int) =~= e);
+}
+/// two values read off the same bytes are the same value (the delimiter makes the code prefix free)
+pub proof fn lemma_unique(m: DnsMessage, x: DnsMessage, all: Seq<u8>)
+    requires wire_ok(m, all), wire_ok(x, all),
+    ensures dns_same(m, x),
+{
+    let (qm, qx) = (m.question.qname@, x.question.qname@);
+    if qm.len() < qx.len() { assert(all[12 + qm.len() as int] == qx[qm.len() as int]); }
+    if qx.len() < qm.len() { assert(all[12 + qx.len() as int] == qm[qx.len() as int]); }
+    assert(qm =~= qx);
+    let o = 12 + qm.len() as int;
+    let (nm, nx) = (m.answer.name@, x.answer.name@);
+    if nm.len() < nx.len() { assert(all[o + 5 + nm.len() as int] == nx[nm.len() as int]); }
+    if nx.len() < nm.len() { assert(all[o + 5 + nx.len() as int] == nm[nx.len() as int]); }
+    assert(nm =~= nx);
+    assert(m.answer.rdata@ =~= x.answer.rdata@);
+}
+// `bytes.remaining()` is prophetic and may not be passed to a proof function: all-quantified forms
+pub proof fn lemma_pre_wire_ok_all(x: DnsMessage)
+    ensures forall|all: Seq<u8>| #[trigger] pre(x, all) ==> wire_ok(x, all),
+{
+    assert forall|all: Seq<u8>| #[trigger] pre(x, all) implies wire_ok(x, all) by { lemma_pre_wire_ok(x, all); }
+}
+pub proof fn lemma_reencode_all(m: DnsMessage)
+    ensures forall|all: Seq<u8>| #[trigger] wire_ok(m, all) ==> dns_representable(m) && is_prefix(dns_enc(m), all),
+{
+    assert forall|all: Seq<u8>| #[trigger] wire_ok(m, all) implies dns_representable(m) && is_prefix(dns_enc(m), all) by { lemma_reencode(m, all); }
+}
+pub proof fn lemma_unique_all(m: DnsMessage, x: DnsMessage)
+    ensures forall|all: Seq<u8>| #![trigger wire_ok(m, all), wire_ok(x, all)] wire_ok(m, all) && wire_ok(x, all) ==> dns_same(m, x),
+{
+    assert forall|all: Seq<u8>| #![trigger wire_ok(m, all), wire_ok(x, all)] wire_ok(m, all) && wire_ok(x, all) implies dns_same(m, x) by { lemma_unique(m, x, all); }
+}
+/// the round-trip clause is not vacuous
+pub proof fn lemma_roundtrip_hypothesis_is_satisfiable(x: DnsMessage)
+    requires dns_representable(x),
+    ensures pre(x, dns_enc(x)),
+{
+    assert(dns_enc(x).subrange(0, dns_enc(x).len() as int) =~= dns_enc(x));
+}
+
+/// (C08) decode(encode(x)) == x, as a lemma over the two contracts: `wire` is what to_message's contract says it emits,
+/// `r` is any result allowed by from_bytes' contract on that input
+pub proof fn lemma_dns_roundtrip(x: DnsMessage, wire: Seq<u8>, r: Result<DnsMessage, ParseError>)
+    requires
+        dns_representable(x),
+        wire == dns_enc(x),                                                                              // DnsMessage.to_message.emits_the_wire_layout
+        (dns_representable(x) && is_prefix(dns_enc(x), wire)) ==> (r matches Ok(m) && dns_same(m, x)),   // DnsMessage.from_bytes.decoding_the_encoding_gives_back_the_value
+    ensures r matches Ok(m) && dns_same(m, x),
+{
+    lemma_roundtrip_hypothesis_is_satisfiable(x);
+}
+
+impl DnsHeader {
+//@ item sim/elvis-core/src/protocols/dns/dns_parsing.rs :: impl DnsHeader / fn build id=DnsHeader.build
+//@ rewrite `header\.(\w+)\.to_be_bytes\(\)` => `vx_u16_to_be(header.\1)` ## core::to_be_bytes routed through the contract-carrying wrapper
+//@ contract
+    ensures r@ == dns_hdr_enc(header),   //# emits_the_header_layout [C08]
+//@ end
+}
+impl DnsQuestion {
+//@ item sim/elvis-core/src/protocols/dns/dns_parsing.rs :: impl DnsQuestion / fn build id=DnsQuestion.build
+//@ rewrite `question\.(qtype|qclass)\.to_be_bytes\(\)` => `vx_u16_to_be(question.\1)` ## core::to_be_bytes routed through the contract-carrying wrapper
+//@ rewrite `Vec::from\(\[b' '\]\)` => `vec![b' ']` ## Vec::from([u8; 1]) written as the equivalent vec! literal (array From impls are outside Verus)
+//@ contract
+    ensures r@ == dns_q_enc(question),   //# emits_the_question_layout [C08]
+//@ end
+}
+impl DnsResourceRecord {
+//@ item sim/elvis-core/src/protocols/dns/dns_parsing.rs :: impl DnsResourceRecord / fn build id=DnsResourceRecord.build
+//@ rewrite `pub fn build\(mut answer: DnsResourceRecord\)` => `pub fn build(answer0: DnsResourceRecord)` ## `mut` parameter renamed and rebound by `let mut answer = answer0;` as the first statement
+//@ rewrite `answer\.(rec_type|class|rdlength)\.to_be_bytes\(\)` => `vx_u16_to_be(answer.\1)` ## core::to_be_bytes routed through the contract-carrying wrapper
+//@ rewrite `answer\.ttl\.to_be_bytes\(\)` => `vx_u32_to_be(answer.ttl)` ## core::to_be_bytes routed through the contract-carrying wrapper
+//@ rewrite `Vec::from\(\[b' '\]\)` => `vec![b' ']` ## Vec::from([u8; 1]) written as the equivalent vec! literal
+//@ contract
+    ensures r@ == dns_rr_enc(answer0),   //# emits_the_record_layout [C08]
+//@ start
+        let mut answer = answer0;
+//@ end
+}
+impl DnsMessage {
+//@ item sim/elvis-core/src/protocols/dns/dns_parsing.rs :: impl DnsMessage / fn to_message id=DnsMessage.to_message
+//@ rewrite `Message::from\(message_vec\)` => `Message::new_inner(Chunk::new(message_vec))` ## `From<Vec<u8>> for Message` is `Message::new(val)`, the generic wrapper `Self::new_inner(body.into())` with `From<Vec<u8>> for Chunk = Chunk::new`; inlined
+//@ contract
+    ensures
+        // (C08) the encoder emits exactly the wire layout
+        r matches Ok(msg) && msg.wf() && msg@ == dns_enc(self),   //# emits_the_wire_layout [C08]
+//@ end
+}
+
 impl DnsMessage {
 //@ item sim/elvis-core/src/protocols/dns/dns_parsing.rs :: impl DnsMessage / fn from_bytes id=DnsMessage.from_bytes
-//@ rewrite `pub fn from_bytes\(` => `#[verifier::exec_allows_no_decreases_clause] pub fn from_bytes(` ## termination of the name loops is NOT verified (finiteness of the caller's iterator)
+//@ rewrite `pub fn from_bytes\(mut bytes: impl Iterator<Item = u8>\)` => `#[verifier::exec_allows_no_decreases_clause] pub fn from_bytes(bytes0: impl Iterator<Item = u8>, Ghost(x): Ghost<DnsMessage>)` ## ghost parameter x (erased at run time): the value whose encoding the input may start with, for the round-trip clause; the `mut` parameter is renamed bytes0 and rebound by `let mut bytes = bytes0;` as the first statement (so that loop invariants can name the entry value); termination of the name loops is NOT verified (finiteness of the caller's iterator)
+//@ rewrite `current = bytes\.next_u8\(\)\.ok_or\(HTS\)\?\n` => `current = bytes.next_u8().ok_or(HTS)?;\n` ## the loop body's unit-typed tail expression is made a statement so that a proof block can follow it
 //@ contract
     // (C14) for every byte string the decoder returns a value or an error (every `?`, push and `i += 1` is an obligation)
-    requires bytes.obeys_prophetic_iter_laws(),
+    requires bytes0.obeys_prophetic_iter_laws(),
     ensures
-        bytes.remaining().len() < 12 ==> r is Err,   //# truncated_header_is_rejected [C14]
-        r matches Ok(m) ==> bytes.remaining().len() >= 12
-            && m.header.id == be16([bytes.remaining()[0], bytes.remaining()[1]])
-            && m.header.properties == be16([bytes.remaining()[2], bytes.remaining()[3]])
-            && m.header.qdcount == be16([bytes.remaining()[4], bytes.remaining()[5]])
-            && m.header.ancount == be16([bytes.remaining()[6], bytes.remaining()[7]])
-            && m.header.nscount == be16([bytes.remaining()[8], bytes.remaining()[9]])
-            && m.header.arcount == be16([bytes.remaining()[10], bytes.remaining()[11]])
+        bytes0.remaining().len() < 12 ==> r is Err,   //# truncated_header_is_rejected [C14]
+        r matches Ok(m) ==> bytes0.remaining().len() >= 12
+            && m.header.id == be16([bytes0.remaining()[0], bytes0.remaining()[1]])
+            && m.header.properties == be16([bytes0.remaining()[2], bytes0.remaining()[3]])
+            && m.header.qdcount == be16([bytes0.remaining()[4], bytes0.remaining()[5]])
+            && m.header.ancount == be16([bytes0.remaining()[6], bytes0.remaining()[7]])
+            && m.header.nscount == be16([bytes0.remaining()[8], bytes0.remaining()[9]])
+            && m.header.arcount == be16([bytes0.remaining()[10], bytes0.remaining()[11]])
             && m.answer.rdata@.len() == m.answer.rdlength,   //# header_fields_at_their_offsets_and_rdata_length [C08]
+        // (C08) for every byte string the decoder accepts, re-encoding the decoded value reproduces the bytes that were consumed
+        r matches Ok(m) ==> dns_representable(m) && is_prefix(dns_enc(m), bytes0.remaining()),   //# reencoding_reproduces_the_consumed_bytes [C08]
+        // (C08) for every representable value x, decoding (anything that starts with) the encoding of x gives back x
+        (dns_representable(x) && is_prefix(dns_enc(x), bytes0.remaining())) ==> (r matches Ok(m) && dns_same(m, x)),   //# decoding_the_encoding_gives_back_the_value [C08]
 //@ start
-        let ghost all = bytes.remaining();
+        let mut bytes = bytes0;
+        let ghost all = bytes0.remaining();
+        let ghost xq = x.question.qname@;
+        let ghost xn = x.answer.name@;
+        let ghost xd = x.answer.rdata@;
+        proof { lemma_pre_wire_ok_all(x); }
 //@ after 1 `let id = bytes.next_`
         proof { assert(bytes.remaining() =~= all.subrange(2, all.len() as int)); }
 //@ after 1 `let properties = bytes.next_`
@@ -139,18 +400,109 @@ impl DnsMessage {
         proof { assert(bytes.remaining() =~= all.subrange(10, all.len() as int)); }
 //@ after 1 `let arcount = bytes.next_`
         proof { assert(bytes.remaining() =~= all.subrange(12, all.len() as int)); }
+//@ after 1 `let mut current = bytes.next_u8().ok_or(HTS)?;`
+        proof {
+            assert(bytes.remaining() =~= all.subrange(13, all.len() as int));
+            assert(qname@ =~= all.subrange(12, 12));
+        }
 //@ loop 1
-            invariant bytes.obeys_prophetic_iter_laws(), all.len() >= 12,
+            invariant bytes.obeys_prophetic_iter_laws(), all == bytes0.remaining(), all.len() >= 13, xq == x.question.qname@, xn == x.answer.name@, xd == x.answer.rdata@,
                 id == be16([all[0], all[1]]), properties == be16([all[2], all[3]]), qdcount == be16([all[4], all[5]]),
                 ancount == be16([all[6], all[7]]), nscount == be16([all[8], all[9]]), arcount == be16([all[10], all[11]]),
+                13 + qname@.len() <= all.len(),
+                bytes.remaining() == all.subrange(13 + qname@.len() as int, all.len() as int),
+                qname@ == all.subrange(12, 12 + qname@.len() as int),
+                no_sp(qname@),
+                current == all[12 + qname@.len() as int],
+                pre(x, all) ==> wire_ok(x, all) && qname@.len() <= xq.len(),
+//@ loop-start 1
+            proof { assert(pre(x, all) ==> qname@.len() < xq.len()); }
+//@ loop-end 1
+            proof {
+                assert(bytes.remaining() =~= all.subrange(13 + qname@.len() as int, all.len() as int));
+                assert(qname@ =~= all.subrange(12, 12 + qname@.len() as int));
+                assert((pre(x, all) && qname@.len() > xq.len()) ==> qname@[xq.len() as int] == all[12 + xq.len() as int]);
+            }
+//@ before 1 `let qtype = bytes.next_`
+        let ghost o = 12 + qname@.len() as int;
+        proof {
+            assert(all[o] == 0x20u8);
+            assert((pre(x, all) && qname@.len() < xq.len()) ==> all[o] == xq[qname@.len() as int]);
+            assert(pre(x, all) ==> qname@ =~= xq);
+        }
+//@ after 1 `let qtype = bytes.next_`
+        proof { assert(bytes.remaining() =~= all.subrange(o + 3, all.len() as int)); }
+//@ after 1 `let qclass = bytes.next_`
+        proof { assert(bytes.remaining() =~= all.subrange(o + 5, all.len() as int)); }
+//@ after 2 `let mut current = bytes.next_u8().ok_or(HTS)?;`
+        proof {
+            assert(bytes.remaining() =~= all.subrange(o + 6, all.len() as int));
+            assert(name@ =~= all.subrange(o + 5, o + 5));
+        }
 //@ loop 2
-            invariant bytes.obeys_prophetic_iter_laws(), all.len() >= 12,
+            invariant bytes.obeys_prophetic_iter_laws(), all == bytes0.remaining(), all.len() >= 13, xq == x.question.qname@, xn == x.answer.name@, xd == x.answer.rdata@,
                 id == be16([all[0], all[1]]), properties == be16([all[2], all[3]]), qdcount == be16([all[4], all[5]]),
                 ancount == be16([all[6], all[7]]), nscount == be16([all[8], all[9]]), arcount == be16([all[10], all[11]]),
+                o == 12 + qname@.len(), o + 5 <= all.len(), qname@ == all.subrange(12, o), no_sp(qname@), all[o] == 0x20u8,
+                qtype == be16([all[o + 1], all[o + 2]]), qclass == be16([all[o + 3], all[o + 4]]),
+                o + 6 + name@.len() <= all.len(), rdata@.len() == 0,
+                bytes.remaining() == all.subrange(o + 6 + name@.len() as int, all.len() as int),
+                name@ == all.subrange(o + 5, o + 5 + name@.len() as int),
+                no_sp(name@),
+                current == all[o + 5 + name@.len() as int],
+                pre(x, all) ==> wire_ok(x, all) && qname@ == xq && name@.len() <= xn.len(),
+//@ loop-start 2
+            proof { assert(pre(x, all) ==> name@.len() < xn.len()); }
+//@ loop-end 2
+            proof {
+                assert(bytes.remaining() =~= all.subrange(o + 6 + name@.len() as int, all.len() as int));
+                assert(name@ =~= all.subrange(o + 5, o + 5 + name@.len() as int));
+                assert((pre(x, all) && name@.len() > xn.len()) ==> name@[xn.len() as int] == all[o + 5 + xn.len() as int]);
+            }
+//@ before 1 `let rec_type = bytes.next_`
+        let ghost p = o + 5 + name@.len() as int;
+        proof {
+            assert(all[p] == 0x20u8);
+            assert((pre(x, all) && name@.len() < xn.len()) ==> all[p] == xn[name@.len() as int]);
+            assert(pre(x, all) ==> name@ =~= xn);
+        }
+//@ after 1 `let rec_type = bytes.next_`
+        proof { assert(bytes.remaining() =~= all.subrange(p + 3, all.len() as int)); }
+//@ after 1 `let class = bytes.next_`
+        proof { assert(bytes.remaining() =~= all.subrange(p + 5, all.len() as int)); }
+//@ after 1 `let ttl = bytes.next_`
+        proof { assert(bytes.remaining() =~= all.subrange(p + 9, all.len() as int)); }
+//@ after 1 `let rdlength = bytes.next_`
+        proof { assert(bytes.remaining() =~= all.subrange(p + 11, all.len() as int)); }
 //@ loop 3
-            invariant bytes.obeys_prophetic_iter_laws(), all.len() >= 12, i <= rdlength, rdata@.len() == i,
+            invariant bytes.obeys_prophetic_iter_laws(), all == bytes0.remaining(), all.len() >= 13, xq == x.question.qname@, xn == x.answer.name@, xd == x.answer.rdata@,
                 id == be16([all[0], all[1]]), properties == be16([all[2], all[3]]), qdcount == be16([all[4], all[5]]),
                 ancount == be16([all[6], all[7]]), nscount == be16([all[8], all[9]]), arcount == be16([all[10], all[11]]),
+                o == 12 + qname@.len(), qname@ == all.subrange(12, o), no_sp(qname@), all[o] == 0x20u8,
+                qtype == be16([all[o + 1], all[o + 2]]), qclass == be16([all[o + 3], all[o + 4]]),
+                p == o + 5 + name@.len(), name@ == all.subrange(o + 5, p), no_sp(name@), all[p] == 0x20u8,
+                rec_type == be16([all[p + 1], all[p + 2]]), class == be16([all[p + 3], all[p + 4]]),
+                ttl == be32([all[p + 5], all[p + 6], all[p + 7], all[p + 8]]), rdlength == be16([all[p + 9], all[p + 10]]),
+                i <= rdlength, rdata@.len() == i, p + 11 + i <= all.len(),
+                bytes.remaining() == all.subrange(p + 11 + i, all.len() as int),
+                rdata@ == all.subrange(p + 11, p + 11 + i),
+                pre(x, all) ==> wire_ok(x, all) && qname@ == xq && name@ == xn,
+//@ loop-end 3
+            proof {
+                assert(bytes.remaining() =~= all.subrange(p + 11 + i, all.len() as int));
+                assert(rdata@ =~= all.subrange(p + 11, p + 11 + i));
+            }
+//@ before 1 `let header: DnsHeader = DnsHeader {`
+        proof {
+            let m = DnsMessage {
+                header: DnsHeader { id, properties, qdcount, ancount, nscount, arcount },
+                question: DnsQuestion { qname, qtype, qclass },
+                answer: DnsResourceRecord { name, rec_type, class, ttl, rdlength, rdata },
+            };
+            assert(wire_ok(m, all));
+            lemma_reencode_all(m);
+            lemma_unique_all(m, x);
+        }
 //@ end
 }
 
